@@ -9,7 +9,7 @@ CONSTANTS
   IDPAIRS <- c_IDPAIRS
   STAKERS = {"s1", "s2"}
   PREC = 100
-  DEVIATIONS = {}
+  DEVIATIONS = {"L27"}
   EXTRAS = {1}
   TAXES = {0, 2}
   REWARDS = {0, 5}
